@@ -113,9 +113,12 @@ Definition get_obs : dec obs :=
   r <- get_z ;; c <- get_opt get_seen ;; pr <- get_z ;; ps <- get_opt get_seen ;;
   l <- get_list get_logev ;; st <- get_storage ;; ret (Obs r c (pr, ps) l st).
 (** a step: operation, issuer answers, the Storage-call indices (within this step) that fail, observation *)
-Definition step := (hop * oracle * list nat * list oracle * obs)%type.
+(** [cancel] = Some nrun: the retrying entry point was called with a context that is cancelled (before the
+    call, or by the first failing issuer answer); nrun attempts were seen to run *)
+Definition step := (hop * oracle * list nat * list oracle * option nat * obs)%type.
 Definition get_step : dec step :=
-  h <- get_hop ;; o <- get_oracle ;; f <- get_list get_nat ;; m <- get_list get_oracle ;; b <- get_obs ;; ret (h, o, f, m, b).
+  h <- get_hop ;; o <- get_oracle ;; f <- get_list get_nat ;; m <- get_list get_oracle ;; c <- get_opt get_nat ;;
+  b <- get_obs ;; ret (h, o, f, m, c, b).
 (** * the model's observation of one step *)
 Definition seen_of (mc : mcert) : seen := (c_ser (m_c mc), m_k mc, [c_sub (m_c mc)]).
 Definition probe (cfg : config) (sp : subject) (w : world) : Z * option seen :=
@@ -131,14 +134,19 @@ Definition model_step (pl : plan) (cfg : config) (sp : subject) (w : world) (h :
 
 (** [more] non-empty = the retrying entry point (ObtainCertAsync / RenewCertAsync) with the issuers'
     answers of the following attempts; an obtain / renew with one attempt is the same program either way *)
-Definition run_step (pl : plan) (cfg : config) (sp : subject) (orc : oracle) (more : list oracle) (h : hop) : M (option mcert) :=
+Definition run_step (pl : plan) (cfg : config) (sp : subject) (orc : oracle) (more : list oracle) (cancel : option nat) (h : hop) : M (option mcert) :=
+  match cancel, h with
+  | Some n, HObtain => Model.bind (obtain_async_c pl cfg sp orc more n) (fun _ => Model.ret None)
+  | Some n, HRenew f => Model.bind (renew_async_c pl cfg sp orc more f n) (fun _ => Model.ret None)
+  | _, _ =>
   match more, h with
   | _ :: _, HObtain => Model.bind (obtain_async pl cfg sp orc more) (fun _ => Model.ret None)
   | _ :: _, HRenew f => Model.bind (renew_async pl cfg sp orc more f) (fun _ => Model.ret None)
   | _, _ => run_hop pl cfg sp orc h
+  end
   end.
-Definition model_step_r (pl : plan) (cfg : config) (sp : subject) (w : world) (h : hop) (orc : oracle) (more : list oracle) : obs * world :=
-  let '(r, w') := run_step pl cfg sp orc more h (clear_log w) in
+Definition model_step_r (pl : plan) (cfg : config) (sp : subject) (w : world) (h : hop) (orc : oracle) (more : list oracle) (cancel : option nat) : obs * world :=
+  let '(r, w') := run_step pl cfg sp orc more cancel h (clear_log w) in
   (Obs (res_code r)
        (match r with Ok (Some mc) => Some (seen_of mc) | _ => None end)
        (probe cfg sp w') (rev (w_log w')) (w_st w'), w').
@@ -159,16 +167,16 @@ Definition obs_eqb (m o : obs) : bool :=
 Fixpoint replay6 (cfg : config) (sp : subject) (w : world) (steps : list step) : bool :=
   match steps with
   | [] => true
-  | (h, orc, f, more, o) :: r =>
-      let '(m, w') := model_step_r (step_plan f) cfg sp w h orc more in
+  | (h, orc, f, more, cn, o) :: r =>
+      let '(m, w') := model_step_r (step_plan f) cfg sp w h orc more cn in
       obs_eqb m o && replay6 cfg sp (break_lock w') r     (* a failed Unlock: the Locker's staleness rule *)
   end.
 (** first disagreeing step and the model's view of it (for [explain]) *)
 Fixpoint first_diff (cfg : config) (sp : subject) (w : world) (steps : list step) (n : Z) : list Z :=
   match steps with
   | [] => [-1]
-  | (h, orc, f, more, o) :: r =>
-      let '(m, w') := model_step_r (step_plan f) cfg sp w h orc more in
+  | (h, orc, f, more, cn, o) :: r =>
+      let '(m, w') := model_step_r (step_plan f) cfg sp w h orc more cn in
       if obs_eqb m o then first_diff cfg sp (break_lock w') r (n + 1)
       else n :: ob_res m :: fst (ob_probe m) :: Z.of_nat (length (ob_st m)) :: Z.of_nat (length (ob_log m)) ::
            concat (map logev_enc (ob_log m))
@@ -313,7 +321,7 @@ Definition spec_recent (cfg : config) (sp : subject) (h : hop) (o : obs) : bool 
 Fixpoint spec6 (cfg : config) (sp : subject) (env : list (N * bool)) (st0 : storage) (fwd : bool) (steps : list step) : bool :=
   match steps with
   | [] => true
-  | (h, orc, f, more, o) :: r =>
+  | (h, orc, f, more, _, o) :: r =>
       (* the recency clause is claimed for fault-free forward histories *)
       let fwd' := fwd && (negb (is_op h) || forallb (fun x => forwardb x st0) (orc :: more)) && (match f with [] => true | _ => false end) in
       (match f with
